@@ -225,9 +225,9 @@ class LogixController:
                 elif a == 2:
                     e += struct.pack("<H", t.symbol_type)
                 elif a == 3:
-                    e += struct.pack("<I", 0x10000 + 4 * t.instance_id)
+                    e += struct.pack("<I", (0x10000 + 4 * t.instance_id) & 0xFFFFFFFF)
                 elif a == 5:
-                    e += struct.pack("<I", 0x20000 + 8 * t.instance_id)
+                    e += struct.pack("<I", (0x20000 + 8 * t.instance_id) & 0xFFFFFFFF)
                 elif a == 6:
                     e += struct.pack("<I", (0 if t.alias else BASE_TAG_BIT) | (t.instance_id & 0xFFFF))
                 elif a == 7:
